@@ -122,7 +122,7 @@ Print Assumptions C16_non_idempotent_never_speculative.
 (* non-vacuity: read timeout from host 0 answered RETRY at consistency 5, then an overloaded error answered
    RETRY_NEXT_HOST, then unavailable answered RETHROW; retry_num goes 0, 1, 2 *)
 Example C16_nonvacuous :
-  let c := {| pol := scripted [(DRetry, Some 5); (DNextHost, None); (DRethrow, None)]; fut_ps := None; known := []; pv := 4 |} in
+  let c := {| pol := scripted [(DRetry, Some 5); (DNextHost, None); (DRethrow, None)]; fut_ps := None; known := []; pv := 4; tgt := None |} in
   let s0 := init [0; 1] None [(0, PHealthy); (1, PHealthy)] (Some 1) false true 2 None in
   let '(s, evs) := exec c s0 [Start; Resp 0%nat (RRetryable KReadTimeout 10); Run 0%nat;
                               Resp 1%nat (RRetryable KOverloaded 11); Run 0%nat; Resp 2%nat (RRetryable KUnavailable 12)] in
